@@ -533,3 +533,147 @@ func MatcherStreams() []MStream {
 	out = append(out, MStream{Own: "Http2", Name: "preface+settings+headers+continuation+data+headers", Bytes: HTTP2Stream(true, true)})
 	return out
 }
+
+// ---------------------------------------------------------------- HTTP/2 scripts
+
+// H2Req is a request of an HTTP/2 script; it is complete (handed up by a
+// non-streaming mosn server connection) when unit DoneUnit has been consumed.
+type H2Req struct {
+	Method, Path, Body, Mark string
+	DoneUnit                 int
+}
+
+// H2Script is a client byte stream: preface, SETTINGS, then HEADERS(+CONTINUATION)
+// / DATA frames. UnitEnds are the offsets after each unit the server consumes
+// atomically: the preface, a single frame, or HEADERS with all its CONTINUATIONs.
+type H2Script struct {
+	Name     string
+	Bytes    []byte
+	UnitEnds []int
+	Reqs     []H2Req
+}
+
+type h2Spec struct {
+	method, path, body, mark string
+	continuation             int // number of CONTINUATION frames the header block is spread over
+	dataFrames               int // body split over this many DATA frames (>=1 when body != "")
+}
+
+func h2Script(name string, specs ...h2Spec) H2Script {
+	s := H2Script{Name: name}
+	var out bytes.Buffer
+	unit := func() { s.UnitEnds = append(s.UnitEnds, out.Len()) }
+	out.WriteString(http2.ClientPreface)
+	unit()
+	fr := http2.NewFramer(&out, nil)
+	Must(fr.WriteSettings(http2.Setting{ID: http2.SettingInitialWindowSize, Val: 65535}))
+	unit()
+	var hb bytes.Buffer
+	enc := hpack.NewEncoder(&hb)
+	for i, sp := range specs {
+		id := uint32(2*i + 1)
+		hb.Reset()
+		Must(enc.WriteField(hpack.HeaderField{Name: ":method", Value: sp.method}))
+		Must(enc.WriteField(hpack.HeaderField{Name: ":scheme", Value: "http"}))
+		Must(enc.WriteField(hpack.HeaderField{Name: ":authority", Value: "c07.test"}))
+		Must(enc.WriteField(hpack.HeaderField{Name: ":path", Value: sp.path}))
+		Must(enc.WriteField(hpack.HeaderField{Name: "x-c07", Value: sp.mark}))
+		if sp.body != "" {
+			Must(enc.WriteField(hpack.HeaderField{Name: "content-length", Value: fmt.Sprint(len(sp.body))}))
+		}
+		block := append([]byte(nil), hb.Bytes()...)
+		parts := sp.continuation + 1
+		for k := 0; k < parts; k++ {
+			frag := block[k*len(block)/parts : (k+1)*len(block)/parts]
+			if k == 0 {
+				Must(fr.WriteHeaders(http2.HeadersFrameParam{StreamID: id, BlockFragment: frag, EndHeaders: parts == 1, EndStream: sp.body == ""}))
+			} else {
+				Must(fr.WriteContinuation(id, k == parts-1, frag))
+			}
+		}
+		unit()
+		if sp.body != "" {
+			n := sp.dataFrames
+			if n < 1 {
+				n = 1
+			}
+			for k := 0; k < n; k++ {
+				Must(fr.WriteData(id, k == n-1, []byte(sp.body[k*len(sp.body)/n:(k+1)*len(sp.body)/n])))
+				unit()
+			}
+		}
+		s.Reqs = append(s.Reqs, H2Req{Method: sp.method, Path: sp.path, Body: sp.body, Mark: sp.mark, DoneUnit: len(s.UnitEnds) - 1})
+	}
+	s.Bytes = append([]byte(nil), out.Bytes()...)
+	return s
+}
+
+// HTTP2Scripts: one and two streams, with and without CONTINUATION, body in one or two DATA frames.
+func HTTP2Scripts() []H2Script {
+	return []H2Script{
+		h2Script("get", h2Spec{method: "GET", path: "/one", mark: "a"}),
+		h2Script("post", h2Spec{method: "POST", path: "/echo", body: "hello", mark: "b"}),
+		// exactly one CONTINUATION: with two or more, MFramer.readMetaFrame never advances its offset and loops
+		// forever however the bytes are delivered (not a segmentation matter; reported as a C18 candidate)
+		h2Script("post-continuation-2data", h2Spec{method: "POST", path: "/echo", body: "hello-body", mark: "c", continuation: 1, dataFrames: 2}),
+		h2Script("post+get", h2Spec{method: "POST", path: "/echo", body: "hello", mark: "d"}, h2Spec{method: "GET", path: "/two?x=1", mark: "e", continuation: 1}),
+		h2Script("get+post", h2Spec{method: "GET", path: "/one", mark: "f"}, h2Spec{method: "POST", path: "/echo", body: "hi", mark: "g"}),
+	}
+}
+
+// ---------------------------------------------------------------- HTTP/1 scripts
+
+type H1Req struct {
+	Method, Path, Body, Mark string
+	End                      int // stream offset after the request's last byte
+}
+
+// H1Script is a keep-alive client byte stream of pipelined requests. The last
+// request of every script is the sentinel "GET /c07-end": the serve goroutine of
+// the HTTP/1 stream connection handles requests strictly in order, so once the
+// harness has seen the sentinel everything before it has been handed up.
+type H1Script struct {
+	Name  string
+	Bytes []byte
+	Reqs  []H1Req
+}
+
+func h1Script(name string, kinds ...string) H1Script {
+	s := H1Script{Name: name}
+	kinds = append(kinds, "end")
+	for i, k := range kinds {
+		mark := fmt.Sprintf("m%d", i)
+		var raw string
+		r := H1Req{Mark: mark}
+		switch k {
+		case "get":
+			r.Method, r.Path = "GET", "/c07/get?x=1"
+			raw = "GET /c07/get?x=1 HTTP/1.1\r\nHost: c07.test\r\nX-C07: " + mark + "\r\n\r\n"
+		case "post":
+			r.Method, r.Path, r.Body = "POST", "/c07/post", "hello-body"
+			raw = "POST /c07/post HTTP/1.1\r\nHost: c07.test\r\nX-C07: " + mark + "\r\nContent-Length: 10\r\n\r\nhello-body"
+		case "chunked":
+			r.Method, r.Path, r.Body = "POST", "/c07/chunked", "hello-chunked-body"
+			raw = "POST /c07/chunked HTTP/1.1\r\nHost: c07.test\r\nX-C07: " + mark + "\r\nTransfer-Encoding: chunked\r\n\r\n5\r\nhello\r\nd\r\n-chunked-body\r\n0\r\n\r\n"
+		case "end":
+			r.Method, r.Path = "GET", "/c07-end"
+			raw = "GET /c07-end HTTP/1.1\r\nHost: c07.test\r\nX-C07: " + mark + "\r\n\r\n"
+		default:
+			panic("C07: unknown http1 request kind " + k)
+		}
+		s.Bytes = append(s.Bytes, raw...)
+		r.End = len(s.Bytes)
+		s.Reqs = append(s.Reqs, r)
+	}
+	return s
+}
+
+func HTTP1Scripts() []H1Script {
+	return []H1Script{
+		h1Script("get", "get"),
+		h1Script("post", "post"),
+		h1Script("chunked", "chunked"),
+		h1Script("post+get", "post", "get"),
+		h1Script("chunked+post", "chunked", "post"),
+	}
+}
